@@ -319,8 +319,8 @@ def gen_indices(shape):
         for ks in itertools.product(kinds, repeat=L):
             if ks.count("ell") > 1:
                 continue
-            if ks.count("bool0") > 1 or ("bool0" in ks and any(k in ("ia1", "ia2", "ba1", "ba2", "int", "neg") for k in ks)):
-                continue  # a boolean scalar combined with other advanced indices (arrays, integers) broadcasts with them: not enumerated
+            if ks.count("bool0") > 1:
+                continue  # one boolean scalar per index; combined with other advanced indices (arrays, integers) it broadcasts with them
             consuming = [k for k in ks if k not in ("none", "ell", "bool0")]
             if len(consuming) + ks.count("ba2") > rank:
                 continue
@@ -430,11 +430,11 @@ def _getitem_case(shape, pattern, tier, tag):
             except IndexError:
                 continue
             n += 1
-            advpos = [i for i, k in enumerate(ks) if k in ("int", "neg", "ia1", "ia2", "ba1", "ba2")]
-            empty_ell = "ell" in ks and len([k for k in ks if k not in ("none", "ell")]) + ks.count("ba2") == len(shape)
-            # residual known finding: a zero-length Ellipsis between two advanced indices
+            advpos = [i for i, k in enumerate(ks) if k in ("int", "neg", "ia1", "ia2", "ba1", "ba2", "bool0")]
+            empty_ell = "ell" in ks and len([k for k in ks if k not in ("none", "ell", "bool0")]) + ks.count("ba2") == len(shape)
+            # residual known finding: a zero-length Ellipsis between two advanced indices (a boolean scalar is one)
             excused_class = bool(empty_ell and advpos and advpos[0] < ks.index("ell") < advpos[-1]
-                                 and any(k in ("ia1", "ia2", "ba1", "ba2") for k in ks))
+                                 and any(k in ("ia1", "ia2", "ba1", "ba2", "bool0") for k in ks))
             try:
                 r = t[index if len(index) > 1 else index[0]]
             except Exception as e:
